@@ -219,6 +219,8 @@ def replay_history(rep, prop, c):
     o = _run_history({"hist": c["history"], "inspect": c.get("inspect", False), "translated": prop == "C07", "both_modes": prop == "C15"})
     n = 6
     so_cfg = SO_CFG.replace("WithRefs = FALSE", "WithRefs = TRUE") if prop == "C03" else SO_CFG
+    if prop in ("C02", "C03"):
+        so_cfg = so_cfg.replace("WithMove = FALSE", "WithMove = TRUE")
     tcfg = corpus._cfg("Trace_SurveyObject.cfg", "SPECIFICATION TSpec\n" + so_cfg % n + "CONSTRAINT Accepted\nCHECK_DEADLOCK FALSE\n")
     a, info = tlc.validate_traces("Trace_SurveyObject", tcfg, [o["trace"]], shards=1, env={"PROP": prop}, tag="replay")
     rep.case({"history": c["history"]})
@@ -227,7 +229,7 @@ def replay_history(rep, prop, c):
 
 
 # ---------------------------------------------------------------- survey-object histories (SurveyObject.tla)
-SO_CFG = 'CONSTANT Names = {"q0", "a", "g0"}\nCONSTANT MaxOps = %d\nCONSTANT WithRefs = FALSE\n'
+SO_CFG = 'CONSTANT Names = {"q0", "a", "g0"}\nCONSTANT MaxOps = %d\nCONSTANT WithRefs = FALSE\nCONSTANT WithMove = FALSE\n'
 
 
 def _run_history(job):
@@ -263,13 +265,21 @@ def _run_history(job):
             s.add_child(create_survey_element_from_dict({"type": "calculate", "name": f"r{nref}", "bind": {"calculate": "${" + arg + "} + 1"}}))
             trace.append({"op": op, "name": arg})
             continue
+        if op == "move":
+            # re-parenting through the public API: the group leaves the root and is attached below a new group
+            del s.children[next(i for i, c in enumerate(s.children) if c is grp)]      # (list.remove compares by content, which validates)
+            h = create_survey_element_from_dict({"type": "group", "name": "h", "label": lab("H"), "children": []})
+            s.add_child(h)
+            h.add_child(grp)
+            trace.append({"op": op, "name": arg})
+            continue
         if op == "mark":
             q0 = next(c for c in s.children if c.name == "q0")
             q0.bind["required"] = "yes"            # the caller edits the logic of one question through the object API
             trace.append({"op": "mark", "name": arg})
             continue
         ev = {"op": "render", "outcome": "ok", "required_on": [], "modes_agree": False, "unique_siblings": False, "binds_once": False, "controls_once": False, "closure": False,
-              "refs_resolve": False, "same_ids": False, "has_refs": False, "ref_paths": []}
+              "refs_resolve": False, "same_ids": False, "has_refs": False, "ref_paths": [], "inst_paths": []}
         try:
             x = s.to_xml(validate=False, pretty_print=False)
             root = project.parse(x)
@@ -284,6 +294,7 @@ def _run_history(job):
             binds = [b["nodeset"] for b in project.binds(root)]
             refs = [c["ref"] for c in project.body_preorder(root)]
             paths = {"/" + "/".join(p) for p in inst}
+            ev["inst_paths"] = [list(p[1:]) for p in inst if len(p) > 1]
             import re as _re
             for b in project.binds(root):
                 nm = project.split_path(b["nodeset"])[-1]
@@ -316,6 +327,8 @@ def part_histories(rep, prop=None):
 
     n = 5 if rep.tier == "quick" else 6
     so_cfg = SO_CFG.replace("WithRefs = FALSE", "WithRefs = TRUE") if prop == "C03" else SO_CFG
+    if prop in ("C02", "C03"):
+        so_cfg = so_cfg.replace("WithMove = FALSE", "WithMove = TRUE")
     cfg = corpus._cfg("Gen_SurveyObject.cfg", "SPECIFICATION SOSpec\n" + so_cfg % n + "INVARIANT AcceptedMeansUnambiguous\nINVARIANT AcceptedMeansReferencesResolve\nCONSTRAINT Emit\nCHECK_DEADLOCK FALSE\n")
     cases, r = tlc.generate("Gen_SurveyObject", cfg, tag="genso", timeout=900)
     rep.add_mc(r, f"SurveyObject: histories of <= {n} builder-API operations (add child to root/group, render) on one Survey object; AcceptedMeansUnambiguous")
